@@ -1,0 +1,53 @@
+// Copyright (c) 2019 The BFE Authors.
+//
+// Licensed under the Apache License, Version 2.0 (the "License");
+// you may not use this file except in compliance with the License.
+// You may obtain a copy of the License at
+//
+//     http://www.apache.org/licenses/LICENSE-2.0
+//
+// Unless required by applicable law or agreed to in writing, software
+// distributed under the License is distributed on an "AS IS" BASIS,
+// WITHOUT WARRANTIES OR CONDITIONS OF ANY KIND, either express or implied.
+// See the License for the specific language governing permissions and
+// limitations under the License.
+
+//go:build verif
+// +build verif
+
+// Accessors for the /verif runtime monitors. Compiled only with -tags verif.
+
+package bfe_server
+
+import (
+	"net"
+)
+
+import (
+	"github.com/bfenetworks/bfe/bfe_balance"
+)
+
+// VerifBalTable returns the balance table of the server.
+func VerifBalTable(srv *BfeServer) *bfe_balance.BalTable {
+	return srv.balTable
+}
+
+// VerifPanicCounters returns the values of the recovered-panic counters of the proxy.
+func VerifPanicCounters(srv *BfeServer) map[string]int64 {
+	ps := srv.serverStatus.ProxyState
+	return map[string]int64{
+		"PanicClientConnServe": ps.PanicClientConnServe.Get(),
+		"PanicBackendWrite":    ps.PanicBackendWrite.Get(),
+		"PanicBackendRead":     ps.PanicBackendRead.Get(),
+	}
+}
+
+// VerifServeConn serves one already accepted connection the way Serve() does
+// (blocking until the connection is finished).
+func VerifServeConn(srv *BfeServer, rw net.Conn) {
+	c, err := newConn(rw, srv)
+	if err != nil {
+		return
+	}
+	c.serve()
+}
